@@ -56,7 +56,7 @@ def make_case(rng, cs, kind):
     q = lambda n: {"inputs": [list(t) for t in n.inputs], "output": list(n.output), "size_dict": n.size_dict}  # noqa
     return {
         "kind": kind, "query": q(net), "other": q(other), "N": net.N, "seed_old": rng.randrange(1000), "seed_new": rng.randrange(1000, 2000),
-        "ssa": gen.random_ssa(rng, net.N), "case_seed": cs, "reader_split_auto": rng.random() < 0.3,
+        "ssa": gen.random_ssa(rng, net.N), "case_seed": cs, "reader_split_auto": rng.random() < 0.5,
     }
 
 
